@@ -17,7 +17,8 @@ EXPLANATION = (
     "delegate or an explicit raise, no defined type silently gets the constant 0.0, and the grain-delegated types of Reaction.rateexpr are "
     "exactly the types Grain.rateexpr dispatches on; R3 the variant reached by composing the class's code table with its dispatch chain is "
     "algebraically equivalent (canonical form over positive reals) to the reference law of that database code, with beta/gamma = 0 where the "
-    "code omits the factor; R4 rateexpr / rate_* are not memoised (their result depends on coefficients that __hash__/__eq__ ignore).")
+    "code omits the factor; R4 rateexpr / rate_* are not memoised (their result depends on coefficients that __hash__/__eq__ ignore); "
+    "R5 the expression of reaction i is assigned to k[i] of the same enumerate position over the unfiltered reaction list (shared with C06.R1).")
 ASSUMPTIONS = [
     "reference laws are the published formulae transcribed in DESIGN.md Appendix A (KIDA help, McElroy+2013, Walsh+2015, UCLCHEM rates.f90)",
     "floating-point evaluation at extreme magnitudes and repr(float) of inf/nan are not decided",
@@ -56,6 +57,8 @@ REF = {
     "Reaction": ("reaction_type", None, {100: KOOIJ, 101: "alpha * zeta", 102: PHOT, 110: IP1, 111: IP2,
                                          120: "alpha * pow(Tgas/300.0, beta) * gamma / (1 - omega)"}),
 }
+# which first reactants get the self-shielded photo law (full species names)
+SHIELDED = {("LEEDSReaction", 4): ["H2", "CO", "N2"], ("LEEDSReaction", 12): ["GH2", "GCO", "GN2"], ("UCLCHEMReaction", "PHOTON"): ["CO"]}
 GAS_CLASSES = ["Reaction", "KIDAReaction", "UMISTReaction", "LEEDSReaction", "UCLCHEMReaction"]
 COEFF = {("attr", SELF, "alpha"): "alpha", ("attr", SELF, "beta"): "beta", ("attr", SELF, "gamma"): "gamma"}
 
@@ -172,6 +175,9 @@ def check(ctx):
     _r1(ctx, rm, pkg, allv)
     _r2_r3(ctx, rm, pkg, allv)
     _r4(ctx, pkg)
+    # the law of reaction i is what is assigned to k[i] (shared with C06.R1: statement / index / rate expression of the same reaction)
+    from .c06 import _r1 as assignment_rule
+    ctx.absorb(assignment_rule, "R5")
 
 
 # ------------------------------------------------------------------ R1
@@ -292,6 +298,22 @@ def _r2_r3(ctx, rm, pkg, allv):
                     elif cond[0] == "cmp" and cond[1][0] in ("In", "NotIn") and "name" in show(cond):
                         inn = (cond[1][0] == "In") == pol
                         branch = "shielded" if inn else "plain"
+                        # who is shielded is part of the law: exactly the listed species, selected by their full name
+                        # (Species.name carries the charge and surface prefix; basename/element views do not)
+                        lhs, rhs = cond[2]
+                        want = SHIELDED.get((cls, code))
+                        skey = f"{key}:shielded-species"
+                        got = None
+                        if rhs[0] in ("list", "tuple", "set") and all(x[0] == "const" for x in rhs[1]):
+                            got = sorted(x[1] for x in rhs[1])
+                        if want is None or got is None:
+                            ctx.unrec("R3", skey, (v.file, v.line), f"shielding selection {show(cond)[:100]} has no reference list / is not a literal list")
+                        elif not (lhs[0] == "attr" and lhs[2] == "name"):
+                            ctx.bad("R3", skey, (v.file, v.line), "self-shielding is selected by something other than the reactant's full name, so species that merely share a base name (ions, surface forms) get a different law",
+                                    expected=f"<first reactant>.name in {want}", found=show(cond)[:120])
+                        else:
+                            ctx.check(got == sorted(want), "R3", skey, (v.file, v.line), "self-shielding applies to exactly the species of the database's law",
+                                      expected=str(sorted(want)), found=str(got))
                     else:
                         unknown.append(show(cond)[:80])
                 vkey = f"{key}:{'/'.join(k + ('=0' if z else '!=0') for k, z in sorted(zero.items())) or 'all'}:{branch}"
@@ -373,6 +395,8 @@ MUTANTS = [
     {"name": "rateexpr-lru-cache", "file": U, "old": "    def rateexpr(self, grain: Grain = None) -> str:", "new": "    @__import__('functools').lru_cache(maxsize=None)\n    def rateexpr(self, grain: Grain = None) -> str:", "rules": ["R4"]},
     {"name": "native-type-gap", "file": R, "old": "        elif rtype == ReactionType.GAS_KIDA_IP2:", "new": "        elif rtype == ReactionType.GAS_THREEBODY:", "rules": ["R2", "R3"]},
     {"name": "grain-list-missing-type", "file": R, "old": "            ReactionType.GRAIN_DESORB_H2,\n", "new": "", "rules": ["R2"]},
+    {"name": "leeds-shield-basename", "file": L, "old": 'if re1.name in ["H2", "CO", "N2"]:', "new": 'if re1.basename in ["H2", "CO", "N2"]:', "rules": ["R3"]},
+    {"name": "leeds-shield-list", "file": L, "old": 'if re1.name in ["H2", "CO", "N2"]:', "new": 'if re1.name in ["H2", "CO", "N2", "H2+"]:', "rules": ["R3"]},
     {"name": "leeds-shield-flag", "file": L, "old": 'shield = f"GetShieldingFactor(IDX_{re1.alias}, h2col, {re1.name.lower()}col, Tgas, 0)"', "new": 'shield = f"GetShieldingFactor(IDX_{re1.alias}, h2col, {re1.name.lower()}col, Tgas, 1)"', "rules": ["R3"]},
 ]
 BENIGN = [
